@@ -98,6 +98,56 @@ pub fn run_forked(dir: &Path, args: &[String]) -> RunResult {
     }
 }
 
+/// Run `f` in a forked child with the same limits (cwd `dir`, stderr captured, 2 GiB, 10 s CPU): for library
+/// entry points whose failure mode may be an abort (allocation failure, stack overflow) rather than a panic.
+/// The child's exit code is `f()`'s value; a panic prints the usual "panicked at" message and exits 101.
+pub fn run_forked_with(dir: &Path, f: impl FnOnce() -> i32) -> RunResult {
+    use std::io::Write;
+    let _ = std::io::stdout().flush();
+    let errp = dir.join("stderr.txt");
+    let c_dir = CString::new(dir.to_string_lossy().as_bytes()).unwrap();
+    let c_err = CString::new(errp.to_string_lossy().as_bytes()).unwrap();
+    let c_null = CString::new("/dev/null").unwrap();
+    let root = repo_root();
+    unsafe {
+        let pid = fork();
+        if pid < 0 { return RunResult { code: None, signal: None, stderr: "fork failed".into() }; }
+        if pid == 0 {
+            chdir(c_dir.as_ptr());
+            let fd = open(c_err.as_ptr(), 0o1101, 0o644);
+            if fd >= 0 { dup2(fd, 2); close(fd); }
+            let nfd = open(c_null.as_ptr(), 0o1, 0);
+            if nfd >= 0 { dup2(nfd, 1); close(nfd); }
+            setrlimit(RLIMIT_AS, &[AS_LIMIT, AS_LIMIT]);
+            setrlimit(RLIMIT_CORE, &[0, 0]);
+            setrlimit(RLIMIT_CPU, &[TIMEOUT_S as u64, TIMEOUT_S as u64 + 2]);
+            alarm(WALL_TIMEOUT_S);
+            std::panic::set_hook(Box::new(move |info| {
+                let site = info.location().map(|l| format!("{}:{}:{}", l.file(), l.line(), l.column())).unwrap_or_default();
+                let msg = if let Some(s) = info.payload().downcast_ref::<&str>() { s.to_string() }
+                          else if let Some(s) = info.payload().downcast_ref::<String>() { s.clone() } else { "Box<dyn Any>".into() };
+                eprintln!("\nthread 'main' panicked at {}:\n{}", site, msg);
+                if !site.starts_with(&root) && !site.starts_with("src/") && !site.contains("/out/parse/lalrparser.rs") {
+                    alarm(120);
+                    eprintln!("stack backtrace:\n{}", std::backtrace::Backtrace::force_capture());
+                }
+            }));
+            let r = std::panic::catch_unwind(std::panic::AssertUnwindSafe(f));
+            _exit(match r { Ok(c) => c, Err(_) => 101 });
+        }
+        let mut status: i32 = 0;
+        loop {
+            let r = waitpid(pid, &mut status, 0);
+            if r == pid { break; }
+            if r < 0 { let e = std::io::Error::last_os_error(); if e.kind() == std::io::ErrorKind::Interrupted { continue; } break; }
+        }
+        let stderr = std::fs::read(&errp).map(|b| String::from_utf8_lossy(&b[..b.len().min(300_000)]).to_string()).unwrap_or_default();
+        let sig = status & 0x7f;
+        if sig == 0 { RunResult { code: Some((status >> 8) & 0xff), signal: None, stderr } }
+        else { RunResult { code: None, signal: Some(sig), stderr } }
+    }
+}
+
 /// The same through the real binary: `sh -c 'ulimit -v ...; exec truth-cli args'`, 10 s timeout.
 pub fn run_exec(dir: &Path, cli: &Path, args: &[String], backtrace: bool) -> RunResult {
     use std::process::{Command, Stdio};
